@@ -150,7 +150,8 @@ func mixDoc(t *rapid.T, name string, tags TagSet) []string {
 	return lines
 }
 
-var typeNamePool = []string{"A", "B", "C", "Item", "Node", "Spec", "T1", "T2", "inner", "opts", "X", "Yz"}
+// the pool holds pairs that are equal under case folding (A/a, Item/item, ...): orderings that fold case must still be total
+var typeNamePool = []string{"A", "B", "C", "Item", "Node", "Spec", "T1", "T2", "inner", "opts", "X", "Yz", "a", "item", "spec", "Inner", "Opts", "yZ"}
 var underlyingPool = map[string][]string{
 	"scalar":   {"int", "string", "bool", "float64", "uint8"},
 	"map":      {"map[string]int", "map[int]string", "map[string][]string"},
